@@ -982,7 +982,12 @@ func evalExpr(e *expr, bind map[string]int64) (int64, bool) {
 func atomsOf(e *expr, out map[string]*expr) {
 	switch e.op {
 	case "const":
-	case "sym", "idx", "call", "len", "field", "extract":
+	case "call":
+		out[e.key] = e
+		for _, a := range e.args {
+			atomsOf(a, out) // what the call was given
+		}
+	case "sym", "idx", "len", "field", "extract":
 		out[e.key] = e
 	default:
 		for _, a := range e.args {
